@@ -13,9 +13,12 @@ CONSTANTS
   EnableInterrupts = TRUE
   FixPruneAtomicFloor = FALSE
   FixSampleOnReorg = FALSE
+  W = 4
+  Base = 0
+  WinBound = "exact"
 INIT Init
 NEXT Next
 VIEW view
-INVARIANTS TypeOK NoUnderflow FloorBound AgeBound RetainedIntact StateReadsCorrect BelowFloorClean
-PROPERTIES Resumable FloorMonotone RestartIsNoOp
+INVARIANTS TypeOK NoUnderflow FloorBound AgeBound RetainedIntact StateReadsCorrect BelowFloorClean EventsCovered FilterFollowsChain
+PROPERTIES Resumable FloorMonotone RestartIsNoOp InitFilterOnlyAdds
 CHECK_DEADLOCK FALSE
